@@ -89,6 +89,9 @@ func scenarios(seqName string, progs [][]op, k int) []scenario {
 func run(r *mc.Run) {
 	mc.QuietGlog()
 	if r.Replay != "" {
+		if ReplayFailover(r) {
+			return
+		}
 		var sc scenario
 		if err := r.ReplayCase(&sc); err != nil {
 			mc.Fatal("replay: %v", err)
@@ -101,6 +104,9 @@ func run(r *mc.Run) {
 			r.Violate(cl, msg, sc, nil)
 		}
 		return
+	}
+	if r.ChildPhase() == "" {
+		Failover(r)
 	}
 	bound := r.Pick(2, 3)
 	var all []scenario
